@@ -574,7 +574,11 @@ LEVEL_TEXT = ('Lean 4 theorems over an executable model of pgradd/Units: (tables
               'helpers. Right level: the quantifier is over all expressions and all names x prefixes, which only proof + exhaustive tables cover.')
 LEVEL_NOTE = ('Trusted: Lean kernel; standard axioms; translator of the live unit tables; the correspondence harness; the decimal-literal '
               'abstraction (float arithmetic as exact rationals, so rounding/overflow are not exhibited); PGA/Spec/SI.lean (the '
-              'reference table, with stated relative tolerances for units tied to measured constants). Partial: non-integer powers are '
-              'proved for magnitude-1 bases only (otherwise the value is irrational and only compared numerically); '
-              'in_units(with_units(x,u),u)=x is proved for x != 0 (with_units(0,u) returns a bare 0: F12, owned by C12).')
+              'reference table, with stated relative tolerances for units tied to measured constants) and PGA/Spec/SIExt.lean (a unit the '
+              'reference does not know means what its definition string means over the reference extended by the earlier new units, '
+              'provided none of its 21 spellings had a meaning: a unit with another value than its author intended is correct by '
+              'definition). Partial: non-integer powers are proved for magnitude-1 bases only (otherwise the value is irrational and only '
+              'compared numerically); a new unit with an irrational or non-positive magnitude or a fractional exponent, and a unit '
+              'registered outside the definition lists of builtin.py, is outside the table obligations (reported without a failing input '
+              'unless one of its spellings changes a meaning).')
 TECHNIQUE = 'Lean 4 proof over hand-written model + correspondence check + table translator'
